@@ -1086,6 +1086,12 @@ YR_API char* yr_compiler_get_error_message(
         "invalid value in condition: \"%s\"",
         compiler->last_error_extra_info);
     break;
+  case ERROR_INVALID_OPERAND:
+    snprintf(buffer, buffer_size, "invalid operand (negative shift count)");
+    break;
+  case ERROR_TOO_MANY_ARGUMENTS:
+    snprintf(buffer, buffer_size, "too many arguments in function call");
+    break;
   }
 
   return buffer;
